@@ -45,6 +45,7 @@ def main():
     os.chdir(VERIF)
     work = os.path.join(VERIF, ".work", "r%d" % os.getpid())
     os.environ["PBT_WORK"] = work
+    core.private_tmpdir()
     core.silence_fds()
     try:
         core.setup_artap_path()
